@@ -36,6 +36,10 @@ type GhostFunc struct {
 	Builtin bool
 }
 
+type GhostField struct {
+	Type, Name, GoType, Pkg string
+}
+
 type Axiom struct {
 	Name string
 	Cl   Clause
@@ -63,6 +67,7 @@ type Contract struct {
 	Census    []Census
 	Guarded   []string
 	Arith     string
+	AllocLimit *Clause
 	Unroll    map[int]int
 	File      string
 	Line      int
@@ -85,6 +90,7 @@ type ContractSet struct {
 	Files  []string
 	GuardDecls [][2]string // pkg, "Type.mu: f1, f2"
 	ctxPkg     string
+	GhostFields map[string]*GhostField
 }
 
 type PkgCensus struct {
@@ -93,7 +99,7 @@ type PkgCensus struct {
 }
 
 func NewContractSet() *ContractSet {
-	return &ContractSet{ByKey: map[string]*Contract{}, Ghosts: map[string]*GhostFunc{}}
+	return &ContractSet{ByKey: map[string]*Contract{}, Ghosts: map[string]*GhostFunc{}, GhostFields: map[string]*GhostField{}}
 }
 
 var reSpecLine = regexp.MustCompile(`^\s*//\s?@\s?(.*)$`)
@@ -217,6 +223,15 @@ func (cs *ContractSet) directive(cur **Contract, body, path string, ln int, pkgP
 		if pkgPath == "" {
 			pkgPath = cs.ctxPkg
 		}
+		if strings.HasPrefix(rest, "field ") {
+			// ghost field <qualified type> <name> <go type>
+			fs := strings.Fields(rest)
+			if len(fs) != 4 {
+				return fail("ghost field <type> <name> <gotype>")
+			}
+			cs.GhostFields[fs[1]+"."+fs[2]] = &GhostField{Type: fs[1], Name: fs[2], GoType: fs[3], Pkg: pkgPath}
+			return nil
+		}
 		g, err := parseGhost(rest, pkgPath)
 		if err != nil {
 			return fail("%v", err)
@@ -330,6 +345,12 @@ func (cs *ContractSet) directive(cur **Contract, body, path string, ln int, pkgP
 		c.TrustWhy = rest
 	case "lemma":
 		c.Lemma = true
+	case "alloc-limit":
+		cl, err := mk(rest)
+		if err != nil {
+			return err
+		}
+		c.AllocLimit = &cl
 	case "arith":
 		c.Arith = rest
 	case "guarded":
